@@ -695,7 +695,7 @@ func (x *Exec) execCall(fr *Frame, st *State, instr ssa.Instruction, c *ssa.Call
 			return
 		}
 		if spec == nil {
-			if x.safety {
+			if x.safety && !(x.rootSpec != nil && x.rootSpec.NoNil) {
 				x.obligeIn(st, "nilfunc", x.srcText(instr), not(eq(fv.One(), "0")), "")
 			}
 		}
